@@ -241,7 +241,8 @@ func init() {
 				// applicable chains of copy/move/add in which earlier destinations and sources are copied and
 				// moved into each other: a node shared between two locations becomes a cycle (fatal stack overflow)
 				o := optFromIndex(c.R.Intn(256))
-				o.allow, o.ensure, o.limit = false, false, 0
+				// every operation of a chain is applicable, so AllowMissingPathOnRemove must not matter
+				o.ensure, o.limit = false, 0
 				legacy := idx%3 == 0
 				prof := seqProf.With(func(p *gen.Profile) { p.ScalarBias = 25 })
 				if legacy {
